@@ -553,6 +553,16 @@ J gen_world(uint64_t seed, const J &opts)
 					}
 					J good = J::obj();
 					good["order"] = (long long)(g.next() & 0xffffffff);
+					if (g.chance(400)) {
+						// valid but unusual: a record announced and withdrawn again inside the reload (prefix or router
+						// key; a fresh one or one of the old set)
+						J muts = J::arr();
+						J m = mut(g.chance(500) ? "annwd" : "annwdkey", g);
+						m["tag"] = (long long)g.below(60000);
+						m["old"] = g.chance(600) ? 1 : 0;
+						muts.push(m);
+						good["muts"] = muts;
+					}
 					script.push(good);
 					if (g.chance(400))
 						script.push(J::obj()); // an ordinary poll in between
@@ -641,8 +651,10 @@ J gen_world(uint64_t seed, const J &opts)
 				// valid but unusual: announce+withdraw pairs, embedded notify, zero field
 				J muts = J::arr();
 				unsigned k = (unsigned)g.below(100);
-				J m = mut(k < 35 ? "annwd" : k < 60 ? "wdann" : k < 80 ? "ins" : "zero", g);
+				J m = mut(k < 25 ? "annwd" : k < 35 ? "annwdkey" : k < 60 ? "wdann" : k < 80 ? "ins" : "zero", g);
 				m["tag"] = (long long)g.below(60000);
+				if (g.chance(500))
+					m["old"] = 1;
 				if (m.gets("k") == "ins")
 					m["what"] = "notify";
 				muts.push(m);
